@@ -3,7 +3,7 @@
 import json
 import subprocess
 
-HOOK_COMMITS = ["71545ac", "f9d1151", "a47bd24", "044d619", "e87af80"]
+HOOK_COMMITS = ["71545ac", "f9d1151", "a47bd24", "044d619", "e87af80", "ebda283"]
 
 TECH = "deterministic simulation with fault injection: seeded search over plans, schedules and fault sequences"
 
